@@ -176,3 +176,44 @@ Proof.
 Qed.
 
 End All.
+
+(* ---------- host functions that meet host_parse_ok ---------- *)
+Definition bad_text (s : list N) : bool := bad_head s || ends_with_byte 47 s.
+Definition ok_hp (s : list N) : result host :=
+  match s with [] => Err EmptyHost | _ => if bad_text s then Err InvalidDomainCharacter else Ok (HDomain s) end.
+Definition ok_ho (s : list N) : result host :=
+  match s with [] => Ok (HDomain []) | _ => if bad_text s then Err InvalidDomainCharacter else Ok (HDomain s) end.
+Definition ok_shp (o : bool) (s : list N) : option spec_host :=
+  match s with
+  | [] => if o then Some SEmpty else None
+  | _ => if bad_text s then None else Some (if o then SOpaque s else SDomain s)
+  end.
+
+Theorem ok_host_parse_ok : host_parse_ok ok_hp ok_ho toy_hd ok_shp toy_shs.
+Proof.
+  split; [|split; [|reflexivity]].
+  - split; intros [|c r]; unfold host_parsing, ok_hp, ok_ho, ok_shp.
+    + exact I.
+    + destruct (bad_text (c :: r)) eqn:E; [exact I|]. unfold bad_text in E. apply orb_false_iff in E.
+      destruct E as [E _]. cbn [bad_head] in E. apply orb_false_iff in E. destruct E as [E1 E2].
+      split; [reflexivity|]. split.
+      * unfold host_disp_ok. cbn [hi_of_host toy_hd]. exists c, r. split; [reflexivity | lia].
+      * split; split; intros H; discriminate H.
+    + split; [reflexivity|]. split; [reflexivity|]. split; split; reflexivity.
+    + destruct (bad_text (c :: r)) eqn:E; [exact I|]. unfold bad_text in E. apply orb_false_iff in E.
+      destruct E as [E _]. cbn [bad_head] in E. apply orb_false_iff in E. destruct E as [E1 E2].
+      split; [reflexivity|]. split.
+      * unfold host_disp_ok. cbn [hi_of_host toy_hd]. exists c, r. split; [reflexivity | lia].
+      * split; split; intros H; discriminate H.
+  - assert (forall c r, bad_text (c :: r) = false -> host_text_wf (c :: r)) as K.
+    { intros c r E. unfold bad_text in E. apply orb_false_iff in E. destruct E as [E E47].
+      cbn [bad_head] in E. apply orb_false_iff in E. destruct E as [E1 E2].
+      unfold host_text_wf. split; [discriminate|]. split; [|split; [|exact E47]];
+        cbn; intros H; injection H as H; lia. }
+    split; [|split; [|reflexivity]].
+    + intros [|c r] h; unfold ok_hp; [discriminate|].
+      destruct (bad_text (c :: r)) eqn:E; [discriminate|]. intros H _. injection H as <-. exact (K c r E).
+    + intros [|c r] h; unfold ok_ho.
+      * intros H Hne. injection H as <-. contradiction.
+      * destruct (bad_text (c :: r)) eqn:E; [discriminate|]. intros H _. injection H as <-. exact (K c r E).
+Qed.
